@@ -35,7 +35,8 @@ Next ==
             /\ Un(<<variant, n, p, gmp, failed, callerDone, returned, settled>>)
        [] Ev.ev = "end" ->
             /\ Ev.i \in running /\ running' = running \ {Ev.i}
-            /\ failed' = (IF Ev.err # 0 THEN failed \cup {Ev.i} ELSE failed)
+            \* failed: the error ids the calls returned (100 + i, or -1 when a call's own error is context.Canceled)
+            /\ failed' = (IF Ev.err # 0 THEN failed \cup {Ev.err} ELSE failed)
             \* after the first failure the context handed to the other calls is cancelled
             /\ ((settled /\ WithCtx) => Ev.cend = 1)
             /\ Un(<<variant, n, p, gmp, count, callerDone, returned, begunCancelled, settled>>)
@@ -47,7 +48,7 @@ Next ==
                THEN /\ Ev.err = 0 /\ \A i \in 1..n : count[i] = 1   \* exactly once each
                     /\ (variant \in {"Map", "MapContext"} => Ev.out = [i \in 1..n |-> 1000 + (i - 1)])   \* result i at position i
                ELSE IF failed # {}
-               THEN Ev.err \in {100 + i : i \in failed} \cup (IF callerDone THEN {-1} ELSE {})   \* an error one of the calls returned
+               THEN Ev.err \in failed \cup (IF callerDone THEN {-1} ELSE {})   \* an error one of the calls returned
                ELSE \/ Ev.err = -1                                  \* the caller's own context error
                     \/ (Ev.err = 0 /\ \A i \in 1..n : count[i] = 1)
             /\ Un(<<variant, n, p, gmp, count, running, failed, callerDone, begunCancelled, settled>>)
